@@ -80,8 +80,10 @@ def gen(rng, tier):
                         # result is its weight in the next fusion, so its relative accuracy matters
                         # (exactly well-formed dyadic operands: a defect of well-formedness of 1 ulp would be a
                         # sizeable fraction of u and the laws do not hold for such operands)
-                        e = (rng.choice([45, 47, 49, 50, 51]) if ty == "f64" else rng.choice([16, 18, 20, 21, 22]))
-                        uu = (1 + rng.below(15)) * 2.0 ** -e
+                        # every partial fusion keeps an uncertainty of at least 8 machine epsilons: below one epsilon an
+                        # opinion counts as dogmatic and the order of folding legitimately matters
+                        e = (rng.choice([45, 46, 47, 48]) if ty == "f64" else rng.choice([16, 17, 18]))
+                        uu = (2 + rng.below(14)) * 2.0 ** -e
                         kk = G.composition(rng, 8, n)
                         bb = [x / 8.0 for x in kk]
                         j = rng.choice([t for t in range(n) if kk[t] > 0])
